@@ -34,9 +34,7 @@ def run(c):
             key = "%s:%s" % (case["kind"], first.split("(")[0].split("=")[0].strip()[:40])
             seen[key] = seen.get(key, 0) + 1
             if seen[key] <= 2:
-                r2, _ = c.run_worker("conv", [(sc, d[sc])], parallel=1)
-                if (r2.get(sc) or [{}])[0].get("agree", True):
-                    raise vf.FrameworkError("disagreement not reproduced")
+                c.reproduce("conv", sc, lambda evs: any(not e.get("agree", True) for e in evs))
             c.report(key, first, dict({"case": case, "event": ev}, **c.rp("conv", d[sc])))
     for sc, dd in deaths.items():
         c.report("death:%s" % dd["kind"], "process died in a conversion", {"case": json.loads(d[sc]), "death": dd})
